@@ -154,6 +154,13 @@ fn ordering(ch: &mut Choices, case: &mut Case) -> Result<(), String> {
     if (mid - nl as f64).abs() > 10.0 {
         return Err(format!("({lat:.4}, {lon:.4}) [{tz}] on {d}: the middle of sunrise..sunset is {:.1} min away from solar noon: {describe}", (mid - nl as f64).abs()));
     }
+    // the probes below are instants: when the zone lies on the other side of the date line from
+    // its longitude (America/Adak, Pacific/Apia ...) the solar noon of date d falls on local date
+    // d-1, which for d = 1900-01-01 is outside the supported range (closed by definition)
+    if noon_local.date().year() < 1900 || noon_local.date().year() > 9998 {
+        case.exclude("solar-noon-outside-supported-range");
+        return Ok(());
+    }
     // `sunrise-sunset` is open at solar noon and closed at solar midnight
     let day = OpeningHours::parse("sunrise-sunset").unwrap().with_context(ctx.clone());
     let open_at_noon = guard(|| day.is_open(noon_dt)).map_err(|p| format!("is_open panicked: {p}"))?;
